@@ -29,7 +29,7 @@ func registerC17() {
 		Level: "exploration",
 		Rule: "all 2^32 semicircle values for Latitude and Longitude (constructors, Invalid, Semicircles, Degrees, NewXDegrees round trip) and all 2^32 second counts " +
 			"(decode/encode bijection, UTC, whole seconds, monotone, IsBaseTime), in 4096 chunks of 2^20 values; the printed form is checked on a stride of 4099 plus all " +
-			"boundary values in the quick tier and on every value in the thorough tier; family spread: 128 of the chunks once more, also in a binary built with GOARCH=386 (32-bit int); family concurrent-print: 8 goroutines print and parse 40000 coordinates each at the same time; every value is a distinct case, non-trivial because each exercises the oracle",
+			"boundary values in the quick tier and on every value in the thorough tier; family spread: 128 of the chunks once more, also in a binary built with GOARCH=386 (32-bit int); family concurrent-print: 8 goroutines print and parse 40000 coordinates each at the same time; plus the same rules (coordinates on a stride of 4099 and the boundary values, times on a stride of 8209) in a program built for GOOS=js GOARCH=wasm and run by node when the host has one - a platform that converts out-of-range floats and shifts differently from amd64 and 386; every value is a distinct case, non-trivial because each exercises the oracle",
 		Assume: []string{
 			"'outside +-90 degrees' is read as the library's documented semicircle range [-2^30, 2^30-1]; +2^30 (exactly +90) is invalid in the code and in its own test table",
 			"the time conversion pair is reached through the verif hook (VerifDecodeDateTime / VerifEncodeTime)",
@@ -43,6 +43,7 @@ func registerC17() {
 		},
 		Families386: []string{"spread", "concurrent-print"}, // 128 chunks of 2^20 values spread over the range, again in a GOARCH=386 binary
 		Exhaustive:  func(string) bool { return true },
+		Main:        c14Wasm, // cmd/c17wasm, built by ./run for C17: the same rules on a stride, in a js/wasm build run by node
 		Finish: func(c *lib.Ctx, cov map[string]interface{}) {
 			cov["printed_form_exhaustive"] = c.Tier == "thorough"
 		},
